@@ -6,8 +6,8 @@
       RegisterSpanProcessor  append a fresh spanProcessorState unless isShutdown
       UnregisterSpanProcessor  unless isShutdown / empty: locate the LAST entry whose processor is sp
                              ([last_index]); none -> return (fix f92b4a5); state.Do(sp.Shutdown); splice it out
-      Shutdown(ctx)          isShutdown CAS; for each entry { ctx done -> return ctx.Err(); state.Do(sp.Shutdown) };
-                             store the empty list
+      Shutdown(ctx)          isShutdown CAS; for each entry state.Do(sp.Shutdown(ctx)) (no early return on a
+                             cancelled ctx since fix 98804a6); store the empty list
       ForceFlush(ctx)        empty -> nil; for each entry { ctx done -> return ctx.Err(); sp.ForceFlush }
       Tracer                 a no-op tracer once isShutdown; Start/End fan out over the list read at that moment
       simpleSpanProcessor    OnEnd exports while the exporter field is non-nil; Shutdown (stopOnce) zeroes the
@@ -156,17 +156,13 @@ Definition tstep (kinds : nat -> pk) (s : tstate) (o : top) : tstate * obs :=
              else (s, quiet ECtx false)
       end
   | TShutdown live =>
+      (* isShutdown CAS; every entry's state.Do(sp.Shutdown(ctx)) whatever ctx (fix 98804a6); store the
+         empty list. With a cancelled ctx the processors may report it and finish in the background:
+         the canonical observation below is the one of a live context. *)
       if t_shut s then (s, quiet ENil false) else
-      match t_regs s with
-      | [] => ({| t_regs := []; t_shut := true; t_pst := t_pst s; t_spans := t_spans s |}, quiet ENil false)
-      | _ => if live
-             then let '(ps, cs, xs, w) := shutdown_all kinds (t_regs s) (t_pst s) in
-                  ({| t_regs := []; t_shut := true; t_pst := ps; t_spans := t_spans s |},
-                   {| o_err := ENil; o_flag := false; o_calls := cs; o_xcalls := xs; o_wrote := w |})
-             else (* the loop returns ctx.Err() before the first processor: isShutdown stays set,
-                     the list is neither shut down nor cleared *)
-                  ({| t_regs := t_regs s; t_shut := true; t_pst := t_pst s; t_spans := t_spans s |}, quiet ECtx false)
-      end
+      let '(ps, cs, xs, w) := shutdown_all kinds (t_regs s) (t_pst s) in
+      ({| t_regs := []; t_shut := true; t_pst := ps; t_spans := t_spans s |},
+       {| o_err := ENil; o_flag := false; o_calls := cs; o_xcalls := xs; o_wrote := w |})
   end.
 
 Fixpoint trun (kinds : nat -> pk) (s : tstate) (ops : list top) : list (top * obs) :=
@@ -231,14 +227,8 @@ Definition ccrit (s : cstate) (t : nat) (o : cop) : cstate :=
              c_next := c_next s; c_count := upd (c_count s) r (S (c_count s r)); c_pcs := done |}
       end
   | CShutdown live =>
-      match c_regs s with
-      | [] => {| c_regs := []; c_shut := true; c_mu := None; c_next := c_next s; c_count := c_count s; c_pcs := done |}
-      | _ => if live
-             then {| c_regs := []; c_shut := true; c_mu := None; c_next := c_next s;
-                     c_count := bump_all (c_regs s) (c_count s); c_pcs := done |}
-             else {| c_regs := c_regs s; c_shut := true; c_mu := None; c_next := c_next s;
-                     c_count := c_count s; c_pcs := done |}
-      end
+      {| c_regs := []; c_shut := true; c_mu := None; c_next := c_next s;
+         c_count := bump_all (c_regs s) (c_count s); c_pcs := done |}
   end.
 
 Definition cstep (prog : nat -> option cop) (s : cstate) (t : nat) : option cstate :=
@@ -286,6 +276,7 @@ Fixpoint m_flush (i : nat) (rs : list rk) (shut : list bool) : list (nat * callk
       match r with
       | RManual => (xs, w, e)
       | RPeriodic x => if b then (xs, w, true)
+                       else if is_nil x then (xs, w, e)     (* no-op exporter (fix b09d39a) *)
                        else ((i, KExport) :: (i, KXFlush) :: xs, is_std x || w, e)
       end
   | _, _ => ([], false, false)
@@ -298,6 +289,7 @@ Fixpoint m_shutdown (live : bool) (i : nat) (rs : list rk) (shut : list bool) : 
       match r with
       | RManual => (xs, w)
       | RPeriodic x => if b then (xs, w)
+                       else if is_nil x then (xs, w)
                        else ((i, KExport) :: (i, KXShutdown) :: xs, (live && is_std x) || w)
       end
   | _, _ => ([], false)
@@ -335,12 +327,9 @@ Fixpoint mrun_from (readers : list rk) (s : mstate) (ops : list mop) : list (mop
   | o :: r => let '(s', ob) := mstep readers s o in (o, ob) :: mrun_from readers s' r
   end.
 
-(** A PeriodicReader around a nil exporter dereferences it when the first instrument is created
-    (Temporality/Aggregation), on ForceFlush and on Shutdown: the outcome is [Crash] (finding F-C15-4). *)
 Definition mrun (readers : list rk) (ops : list mop) : outcome (list (mop * mobs)) :=
-  if existsb nil_periodic readers then Crash
-  else Ok (mrun_from readers {| m_stopped := false; m_once := false; m_rs := map (fun _ => false) readers;
-                                m_pending := false |} ops).
+  Ok (mrun_from readers {| m_stopped := false; m_once := false; m_rs := map (fun _ => false) readers;
+                           m_pending := false |} ops).
 
 (** * Log provider *)
 Record lstate := { l_stopped : bool; l_q : list nat (* batch queue lengths, per processor *);
@@ -408,7 +397,8 @@ Definition lstep (procs : list lk) (s : lstate) (o : lop) : lstate * mobs :=
   | LShutdown live =>
       if l_stopped s then (s, mk [ENil] lvl false [] [] false)
       else let '(xs, w) := l_shutdown 0 procs (l_q s) in
-           ({| l_stopped := true; l_q := map (fun _ => 0) (l_q s); l_pending := false |},
+           ({| l_stopped := true; l_q := map (fun _ => 0) (l_q s);
+               l_pending := negb live && (l_pending s || has_batch procs) (* a cancelled Shutdown does not wait *) |},
             mk (if live then [ENil] else [ENil; ECtx]) (if live then lvl else 1) false (to_all KShutdown all) xs w)
   end.
 
@@ -462,3 +452,42 @@ Definition sstep (blocking : bool) (n : nat) (callers : nat -> bool) (s : sstate
                    s_pcs := upd (s_pcs s) t (SDone ENil) |}
   | SDone _ => None
   end.
+
+(** * OLD definitions, kept only to document what the repaired defects were
+    (they are not the model of the current code; see Proofs.*_old_refuted). *)
+
+(** Before 98804a6: Shutdown returned ctx.Err() before the first processor when ctx was already
+    cancelled, leaving isShutdown set, the processors live and the list in place. *)
+Definition tstep_old (kinds : nat -> pk) (s : tstate) (o : top) : tstate * obs :=
+  match o with
+  | TShutdown false =>
+      if t_shut s then (s, quiet ENil false) else
+      match t_regs s with
+      | [] => tstep kinds s o
+      | _ => ({| t_regs := t_regs s; t_shut := true; t_pst := t_pst s; t_spans := t_spans s |}, quiet ECtx false)
+      end
+  | _ => tstep kinds s o
+  end.
+Fixpoint trun_old (kinds : nat -> pk) (s : tstate) (ops : list top) : list (top * obs) :=
+  match ops with
+  | [] => []
+  | o :: r => let '(s', ob) := tstep_old kinds s o in (o, ob) :: trun_old kinds s' r
+  end.
+
+Definition ccrit_old (s : cstate) (t : nat) (o : cop) : cstate :=
+  match o, c_shut s, c_regs s with
+  | CShutdown false, false, _ :: _ =>
+      {| c_regs := c_regs s; c_shut := true; c_mu := None; c_next := c_next s; c_count := c_count s;
+         c_pcs := upd (c_pcs s) t CDone |}
+  | _, _, _ => ccrit s t o
+  end.
+Definition cstep_old (prog : nat -> option cop) (s : cstate) (t : nat) : option cstate :=
+  match prog t with
+  | None => None
+  | Some o => match c_pcs s t with CIn => Some (ccrit_old s t o) | _ => cstep prog s t end
+  end.
+
+(** Before b09d39a: a PeriodicReader around a nil exporter dereferenced it on the first instrument,
+    on ForceFlush and on Shutdown. *)
+Definition mrun_old (readers : list rk) (ops : list mop) : outcome (list (mop * mobs)) :=
+  if existsb nil_periodic readers then Crash else mrun readers ops.
